@@ -33,6 +33,9 @@ type UploadCase struct {
 	Fault     string   `json:"fault"`     // none | src-missing | src-is-dir | dst-squatted | dst-missing | dst-is-file
 	FaultStep int      `json:"faultStep"` // index into Files, len(Files) = the control file itself
 	FilenameF string   `json:"filenameField,omitempty"` // adversarial "Filename:" field ("" = none; value relative to root)
+	// Stale: before the first operation, destination d1/d2 already hold files with the names of the
+	// upload (same length, different bytes, not older) - a re-upload over leftovers.
+	Stale bool `json:"stale,omitempty"`
 }
 
 func upContent(f UpFile) []byte {
@@ -84,6 +87,7 @@ func genUploadCase(t *rapid.T) UploadCase {
 		c.Fault = rapid.SampledFrom(opts).Draw(t, "fault")
 		c.FaultStep = rapid.IntRange(0, len(c.Files)).Draw(t, "faultStep")
 	}
+	c.Stale = rapid.IntRange(0, 3).Draw(t, "stale") == 0
 	if adversarial && rapid.IntRange(0, 2).Draw(t, "fnf") == 0 {
 		c.FilenameF = rapid.SampledFrom([]string{"outside/evil", "d1/evil", "/nonexistent/evil"}).Draw(t, "filenameField")
 	}
@@ -198,6 +202,9 @@ func checkUploadCase(c UploadCase, r *Recorder) error {
 	if len(c.Ops) > 1 {
 		cl = append(cl, "multi-op-history")
 	}
+	if c.Stale {
+		cl = append(cl, "stale-files-in-destination")
+	}
 	r.Case(jsonKey(c), nt, cl...)
 	if nt {
 		r.Sample(c)
@@ -228,6 +235,17 @@ func checkUploadCase(c UploadCase, r *Recorder) error {
 	ctlPath := filepath.Join(root, "src", c.ctlName())
 	ctlText := c.controlText(root)
 	os.WriteFile(ctlPath, []byte(ctlText), 0o644)
+	if c.Stale {
+		// leftovers of an earlier upload: same names, same lengths, other bytes, written later than the sources
+		for _, dd := range []string{"d1", "d2"} {
+			for _, f := range c.Files {
+				if plainName(f.Name) {
+					os.WriteFile(filepath.Join(root, dd, f.Name), bytes.Repeat([]byte{'S'}, f.Size), 0o644)
+				}
+			}
+			os.WriteFile(filepath.Join(root, dd, c.ctlName()), bytes.Repeat([]byte{'S'}, len(ctlText)), 0o644)
+		}
+	}
 
 	var h uploadHandle
 	var filenameOf func() string
@@ -396,7 +414,7 @@ func upNames(fs []UpFile) []string {
 
 var specC20 = Register(&Spec[UploadCase]{
 	Prop: "C20", Name: "upload",
-	Rule: "histories of 1..3 operations (Copy/Move into d1|d2, Remove) on one .dsc or .changes handle over a fresh scratch tree root/{src,src/sub,d1,d2,outside}; 0..5 referenced files (sizes 0, 1, 7, 300, 32767..32769, 100000); a quarter of the uploads list adversarial names ('../outside/victim', '../d1/planted', 'sub/x', absolute, '..', '.', 'sub/../../outside/victim') and/or carry a literal 'Filename:' field pointing elsewhere; the last operation optionally runs with ONE planted fault at step i in {file 0..n-1, control file}: source deleted, source replaced by a non-empty directory, a non-empty directory squatting on the destination name, destination directory missing or a regular file. Oracle: success (plain names, no fault) => all files and the control file byte-identical in the destination (Move: gone from source; Remove: gone), handle.Filename == dest/base; fault => an error, no regular control file in the destination, for Move/Remove the control file intact at its source; always => root/outside bit-identical, no destination file carries outside content, d1/planted untouched when d1 is not involved. Non-trivial: >= 2 files with a fault at step >= 1, or non-plain names; distinct by case.",
+	Rule: "histories of 1..3 operations (Copy/Move into d1|d2, Remove) on one .dsc or .changes handle over a fresh scratch tree root/{src,src/sub,d1,d2,outside}; 0..5 referenced files (sizes 0, 1, 7, 300, 32767..32769, 100000); a quarter of the uploads list adversarial names ('../outside/victim', '../d1/planted', 'sub/x', absolute, '..', '.', 'sub/../../outside/victim') and/or carry a literal 'Filename:' field pointing elsewhere; in a quarter of the cases both destinations already hold same-named files of the same length with other bytes (leftovers of an earlier upload); the last operation optionally runs with ONE planted fault at step i in {file 0..n-1, control file}: source deleted, source replaced by a non-empty directory, a non-empty directory squatting on the destination name, destination directory missing or a regular file. Oracle: success (plain names, no fault) => all files and the control file byte-identical in the destination (Move: gone from source; Remove: gone), handle.Filename == dest/base; fault => an error, no regular control file in the destination, for Move/Remove the control file intact at its source; always => root/outside bit-identical, no destination file carries outside content, d1/planted untouched when d1 is not involved. Non-trivial: >= 2 files with a fault at step >= 1, or non-plain names; distinct by case.",
 	Check: checkUploadCase,
 })
 
